@@ -4,6 +4,8 @@
 //   (ty-print T)         -> "text"            format!("{}", t), t built as conv::ty_of_sexp does
 //   (ty-print-parse T)   -> ok <canonical T'> | reject        Type::from_str(&t.to_string())
 //   (ty-parse "text")    -> ok <canonical T>  | reject        Type::from_str(text)
+//   (ty-roundtrip-eq T)  -> true | false | reject   Type::from_str(&t.to_string()) == Ok(t), judged by
+//                                             the implementation's own `==`, 8 times (t rebuilt each time)
 //   (val-id V)           -> typed canonical text of V itself
 //   (val-debug V)        -> "text"            format!("{:?}", v)
 //   (val-display V)      -> "text"            format!("{}", v)
@@ -138,7 +140,7 @@ fn esc_table() -> String {
 }
 
 const COMMANDS: &[&str] = &[
-    "ty-print", "ty-print-parse", "ty-parse", "val-id", "val-debug", "val-display", "val-roundtrip",
+    "ty-print", "ty-print-parse", "ty-parse", "ty-roundtrip-eq", "val-id", "val-debug", "val-display", "val-roundtrip",
     "val-read", "val-as-program", "run-text", "esc-table", "float-debug", "float-display",
     "float-read",
 ];
@@ -158,6 +160,17 @@ pub fn handle(cmd: &str, args: &[Sexp]) -> Option<Result<String, String>> {
                     Ok(u) => format!("ok {}", ty_to_string(&u)),
                     Err(_) => "reject".into(),
                 })
+            }
+            ("ty-roundtrip-eq", [t]) => {
+                let mut all = true;
+                for _ in 0..8 {
+                    let t = ty_of_sexp(t)?;
+                    match Type::from_str(&t.to_string()) {
+                        Ok(u) => all &= u == t && t == u,
+                        Err(_) => return Ok("reject".into()),
+                    }
+                }
+                Ok(all.to_string())
             }
             ("ty-parse", [S(text)]) => Ok(match Type::from_str(text) {
                 Ok(u) => format!("ok {}", ty_to_string(&u)),
